@@ -490,3 +490,183 @@ func rulePreText(p *Prog, r *Report) {
 func init() {
 	register("C08", "", rulePreText)
 }
+
+// ---- R-PRE-LEADZERO: a numeric pre-release identifier with a leading zero is rejected (strict semver) ----
+//
+// SemVer 2.0.0 section 9: numeric identifiers must not include leading zeroes; an identifier is numeric when
+// it consists of digits only. The rejection in the strict ecosystem's constructor must therefore be tied to an
+// all-digits test of the identifier (a pattern whose language is the digit strings, or a digit loop), not to
+// the result of an integer conversion: the conversion fails for digit strings beyond the integer range
+// (a 20-digit identifier with a leading zero would pass) and accepts a sign.
+// Decided: that tie, on the paths to the error return guarded by the leading-zero test. Not the rest of the grammar.
+func rulePreLeadZero(p *Prog, r *Report) {
+	e := ecoByName(p, "semver")
+	key := "semver: the leading-zero rejection of pre-release identifiers is tied to an all-digits test"
+	if e == nil {
+		r.Und("R-PRE-LEADZERO", key, "", "ecosystem not found")
+		return
+	}
+	pkg := e.VerT.Obj().Pkg()
+	sites, good := 0, 0
+	var bad []string
+	for _, fn := range p.RepoReachable(e.NewVer) {
+		if fn.Pkg == nil || fn.Pkg.Pkg != pkg || fn.Blocks == nil {
+			continue
+		}
+		for _, b := range fn.Blocks {
+			iff, ok := b.Instrs[len(b.Instrs)-1].(*ssa.If)
+			if !ok {
+				continue
+			}
+			text, tpos := leadZeroTest(p, iff.Cond)
+			if text == nil {
+				continue
+			}
+			// the true edge leads to an error return, directly or through further tests
+			type ctest struct {
+				cond ssa.Value
+				tv   bool
+			}
+			var chain []ctest
+			reaches := false
+			for x, n := b.Succs[0], 0; x != nil && n < 4; n++ {
+				if leadsToError(x, map[*ssa.BasicBlock]bool{}, 0) {
+					reaches = true
+					break
+				}
+				i2, ok := x.Instrs[len(x.Instrs)-1].(*ssa.If)
+				if !ok {
+					break
+				}
+				e0 := leadsToError(x.Succs[0], map[*ssa.BasicBlock]bool{}, 0)
+				e1 := leadsToError(x.Succs[1], map[*ssa.BasicBlock]bool{}, 0)
+				switch {
+				case e0 && !e1:
+					chain = append(chain, ctest{i2.Cond, true})
+					reaches = true
+				case e1 && !e0:
+					chain = append(chain, ctest{i2.Cond, false})
+					reaches = true
+				}
+				break
+			}
+			if !reaches {
+				continue
+			}
+			sites++
+			// what else holds on the way into the error: conditions on the same text
+			digits, conv := false, ""
+			look := func(cond ssa.Value, tv bool) bool {
+				// pattern.MatchString(text) with L(pattern) = digit strings
+				if call, ok := cond.(*ssa.Call); ok && tv {
+					if g := call.Call.StaticCallee(); g != nil && extName(g) == "(*regexp.Regexp).MatchString" && len(call.Call.Args) == 2 && call.Call.Args[1] == text {
+						if ri := p.regexOf(call.Call.Args[0]); ri != nil && ri.Err == nil {
+							a := reIncludes(ri.Pattern, []reSup{{Pat: `^[0-9]+$`}})
+							bb := reIncludes(`^[0-9]+$`, []reSup{{Pat: ri.Pattern}})
+							if a.Unsupported == "" && bb.Unsupported == "" && a.Holds && bb.Holds {
+								digits = true
+							}
+						}
+					}
+				}
+				// err == nil of a conversion of the text
+				if eq, ok := cond.(*ssa.BinOp); ok && isNilConst(eq.Y) && (eq.Op == token.EQL && tv || eq.Op == token.NEQ && !tv) {
+					if ex, ok := eq.X.(*ssa.Extract); ok {
+						if call, ok := ex.Tuple.(*ssa.Call); ok {
+							if g := call.Call.StaticCallee(); g != nil && strings.HasPrefix(extName(g), "strconv.") && len(call.Call.Args) > 0 && call.Call.Args[0] == text {
+								conv = extName(g)
+							}
+						}
+					}
+				}
+				return false
+			}
+			domEdges(b, look)
+			// the text of a capture group that holds digits only
+			{
+				fp := &fieldProv{via: map[string]bool{}, local: true}
+				p.provWalk(text, fp, map[ssa.Value]bool{}, 0)
+				all := len(fp.groups) > 0 && !fp.unknown
+				for _, g := range fp.groups {
+					all = all && g.digitsOnly()
+				}
+				for m := range fp.via {
+					if m != "elem" {
+						all = false
+					}
+				}
+				if all {
+					digits = true
+				}
+			}
+			for _, ct := range chain {
+				look(ct.cond, ct.tv)
+			}
+			switch {
+			case conv != "" && !digits:
+				bad = append(bad, fmt.Sprintf("%s (%s): an identifier with a leading zero is rejected only when %s succeeds: the conversion fails for digit strings beyond the integer range, so a long numeric identifier with a leading zero is accepted (and it accepts a sign)", fn.Name(), p.Pos(tpos), conv))
+			case digits:
+				good++
+			default:
+				bad = append(bad, fmt.Sprintf("%s (%s): the rejection of a leading zero is not tied to an all-digits test of the identifier", fn.Name(), p.Pos(tpos)))
+			}
+		}
+	}
+	sort.Strings(bad)
+	switch {
+	case sites == 0:
+		r.Und("R-PRE-LEADZERO", key, p.FnPos(e.NewVer), "no leading-zero test with an error return found in the constructor's call tree")
+	case len(bad) > 0:
+		r.Bad("R-PRE-LEADZERO", key, p.FnPos(e.NewVer), bad[0])
+	default:
+		r.Ok("R-PRE-LEADZERO", key, p.FnPos(e.NewVer), fmt.Sprintf("%d leading-zero rejection(s), each under an all-digits test of the same identifier", good))
+	}
+	r.Floor("R-PRE-LEADZERO", 1)
+}
+
+func init() {
+	register("C08", "", rulePreLeadZero)
+}
+
+// leadZeroTest: cond tests "the first byte of a string is '0'", directly or through a repo predicate of one
+// string parameter that does; the string and a position for reports
+func leadZeroTest(p *Prog, cond ssa.Value) (ssa.Value, token.Pos) {
+	first := func(v ssa.Value) ssa.Value {
+		bo, ok := v.(*ssa.BinOp)
+		if !ok || bo.Op != token.EQL {
+			return nil
+		}
+		if c, okc := constInt(bo.Y); !okc || c != '0' {
+			return nil
+		}
+		switch x := bo.X.(type) {
+		case *ssa.Lookup:
+			if i, ok := constInt(x.Index); ok && i == 0 && isStringType(x.X.Type()) {
+				return x.X
+			}
+		case *ssa.Index:
+			if i, ok := constInt(x.Index); ok && i == 0 && isStringType(x.X.Type()) {
+				return x.X
+			}
+		}
+		return nil
+	}
+	if t := first(cond); t != nil {
+		return t, cond.Pos()
+	}
+	if c, ok := cond.(*ssa.Call); ok {
+		g := c.Call.StaticCallee()
+		if g != nil && p.IsRepoFn(g) && g.Blocks != nil && len(g.Params) == 1 && len(c.Call.Args) == 1 && isStringType(g.Params[0].Type()) && g.Signature.Results().Len() == 1 && isBoolType(g.Signature.Results().At(0).Type()) {
+			for _, b := range g.Blocks {
+				for _, ins := range b.Instrs {
+					if v, ok := ins.(ssa.Value); ok {
+						if t := first(v); t != nil && t == ssa.Value(g.Params[0]) {
+							return c.Call.Args[0], c.Pos()
+						}
+					}
+				}
+			}
+		}
+	}
+	return nil, token.NoPos
+}
